@@ -174,7 +174,7 @@ def gen_case(rng, big=False):
     pat = rng.choice(PATTERNS)
     case = {'kind': kind, 'pattern': pat}
     if kind == 'range_hist':
-        n = rng.randint(9, 40) if big else rng.randint(1, 8)
+        n = rng.randint(12, 24) if big else rng.randint(1, 8)
         case['edges'] = breaks(rng, n)
         case['counts'] = counts_pattern(rng, n, pat)
         case['location'] = rng.choice(['mid', 'mid', 'mid', 'right', 'left'])
@@ -202,7 +202,7 @@ def gen_case(rng, big=False):
             c[1] = 3.0
         case['counts'] = c
     elif kind == 'df_fromto':
-        n = rng.randint(9, 30) if big else rng.randint(1, 8)
+        n = rng.randint(12, 24) if big else rng.randint(1, 8)
         amps = [rng.choice(DYADIC_W) * rng.randint(0 if rng.random() < 0.15 else 1, 12) for _ in range(n)]
         means = [rng.choice([0.0, 0.0, 10.0, -35.0, 120.0]) for _ in range(n)]
         flip = [rng.random() < 0.5 for _ in range(n)]
@@ -281,7 +281,8 @@ def gassner_relation(case, rule):
         return False, None, None, info
     wc = curve_series(case)
     if rule == 'elementary':
-        if not (info['max_all'] >= SD or k2 == k1):
+        # load level = largest amplitude that occurs; at/above the knee, or a curve that is elementary below it
+        if not (info['max_occupied'] >= SD or k2 == k1):
             return False, None, None, info
         Ng = float(wc.gassner_miner_elementary.gassner_cycles(lc))
         rule_curve = wc.fatigue.miner_elementary()
@@ -485,7 +486,7 @@ def case_certificates(case, variant, rng, full=True):
     for name, cc, fat in rules:
         d = np.asarray(fat.damage(lc), float)
         if full:
-            for i in pick:
+            for i in (pick if name in ('haibach', 'elementary') or len(pick) <= 2 else sorted(rng.sample(pick, 2))):
                 add(near('(damage1 %s (%s, %s))' % (cc, common.rlit(amps[i]), common.rlit(cyc[i])), float(d[i])), 'damage', name, i)
         add(near('(damage_sum %s %s)' % (cc, l), float(d.sum())), 'damage_sum', name)
         if name != 'own':
@@ -581,7 +582,7 @@ def run(res, only_cases=None):
                         'below the knee MinerHaibach documents inf',
                         'native failure probability (50 %) only; TN/TS do not enter']
     res.cov['rule'] = ('curves k_1 in {1..10}, k_2 in {inf, k_1, 2k_1-1, 15, 22.5}, SD placed at 0.125..2.5 x the top amplitude or exactly on a member; '
-                       'collectives as range / range x mean / from-to histograms and from-to / range-mean DataFrames, 1..8 classes (thorough: up to 40), '
+                       'collectives as range / range x mean / from-to histograms and from-to / range-mean DataFrames, 1..8 classes (thorough: 4 cases with 12..24), '
                        'dyadic class limits, class location mid/left/right, optional scale(); count patterns full / empty top (1-2) / empty bottom / '
                        'empty middle / sparse / single / non-integer. non-trivial = distinct case with >= 2 occupied members and >= 1 empty class')
     proofs_ok = common.standard_proof_stage(res, 'C11', extra_targets=['theories/Strength/C11Cert.vo', 'theories/Common/Cert.vo'])
@@ -600,15 +601,18 @@ def run(res, only_cases=None):
     if only_cases is not None:
         cases = list(only_cases)
     else:
-        n_cases = 26 if quick else 170
+        n_cases = 20 if quick else 100
         cases = corpus_cases() + [gen_case(res.rng) for _ in range(n_cases)]
         if not quick:
-            cases += [gen_case(res.rng, big=True) for _ in range(6)]
+            for _ in range(4):
+                c = gen_case(res.rng, big=True)
+                c['big'] = True
+                cases.append(c)
     # D1: certificates
     goals, descr, rejected = [], [], 0
     for ci, case in enumerate(cases):
         try:
-            gs = case_certificates(case, variant, res.rng, full=True)
+            gs = case_certificates(case, variant, res.rng, full=not case.get('big'))
         except Exception as e:
             rejected += 1
             res.notes.append('case %d rejected by the implementation: %r' % (ci, e))
@@ -626,6 +630,12 @@ def run(res, only_cases=None):
             import time
             t0 = time.time()
             okc, badc, log = cert.run_certs('C11', REQ, [], goals, extra_tac='c11_prep;', chunk=40)
+            if badc:      # a killed / starved coqc is an infrastructure failure, not a result: goals that failed are tried once more
+                ok2, bad2, log2 = cert.run_certs('C11retry', REQ, [], [goals[i] for i in badc], extra_tac='c11_prep;', chunk=20)
+                okc = sorted(set(okc) | {badc[j] for j in ok2})
+                badc = [badc[j] for j in bad2]
+                log = log2
+                res.cov['certificate_goals_retried'] = len(ok2) + len(bad2)
             res.cov['certificate_wall_s'] = round(time.time() - t0, 1)
             okset, bad_cases = set(okc), {}
             for i in range(len(goals)):
